@@ -1020,15 +1020,37 @@ def loop_built(fn, l):
     init = fn.expr_of_def(ds[0])
     if not (init[0] == 'call' and re.search(r'Vec::<T>::(new|with_capacity)$|Vec::<T, A>::(new|with_capacity)', init[1])):
         return None
+    # temps holding `&mut l` (and reborrows of them): a call that receives one may write the vector
+    mtemps = set()
+    for bi in fn.normal_blocks():
+        for st in fn.blocks[bi]['stmts']:
+            if st['k'] == 'Assign' and st['rv']['k'] in ('Ref', 'RawPtr') and st['rv'].get('mutbl'):
+                pl = st['rv']['place']
+                if pl['local'] == l and not any(e_['k'] == 'Deref' for e_ in pl['proj']):
+                    if st['place']['proj']:
+                        return None
+                    mtemps.add(st['place']['local'])
+    changed = True
+    while changed:
+        changed = False
+        for bi in fn.normal_blocks():
+            for st in fn.blocks[bi]['stmts']:
+                if st['k'] != 'Assign' or st['place']['proj'] or st['place']['local'] in mtemps:
+                    continue
+                rv = st['rv']
+                src = None
+                if rv['k'] in ('Ref', 'RawPtr') and rv['place']['local'] in mtemps:
+                    src = rv['place']['local']
+                if rv['k'] == 'Use' and rv['op'].get('k') in ('Copy', 'Move') and rv['op']['place']['local'] in mtemps:
+                    src = rv['op']['place']['local']
+                if src is not None:
+                    mtemps.add(st['place']['local'])
+                    changed = True
+    if fn.stores().get(l):
+        return None
     writes = []
     for c in fn.calls():
-        if not c['term']['args']:
-            continue
-        a0 = strip(fn.expr_of_operand(c['term']['args'][0]))
-        if a0 == ('var', l, fn.names.get(l, '_%d' % l)) or (a0[0] == 'var' and a0[1] == l):
-            p = c['path'] or ''
-            if re.search(r'Vec::<T, A>::(len|is_empty|iter|as_slice|capacity|last|first|get|contains)$|::deref$|::clone$|::into_iter$|IntoIterator|::as_ref$|::borrow$', p):
-                continue
+        if any(a.get('k') in ('Copy', 'Move') and a['place']['local'] in mtemps for a in c['term']['args']):
             writes.append(c)
     pushes = [c for c in writes if c['path'].endswith('Vec::<T, A>::push')]
     if len(pushes) != 1 or len(writes) != 1:
@@ -1083,6 +1105,38 @@ def loop_built(fn, l):
     elem = fn.expr_of_operand(pushes[0]['term']['args'][1])
     memo[l] = dict(source=it, elem=elem, push=pb, loop=(h, body, latches), filtered=skipping, driver=drv[0], init=init)
     return memo[l]
+
+
+def loop_skip_paths(fn, lb, limit=64):
+    """for a loop-built vector whose trips may skip the push: every way round the loop that avoids the push, as a list of
+    (switch condition, edge label) conjunctions (the loop driver's own test and `?` propagation are not conditions)"""
+    h, body, _ = lb['loop']
+    pb = lb['push']
+    sw = {s_['block']: s_ for s_ in fn.switches()}
+    out = []
+
+    def go(b, conds, seen):
+        if len(out) > limit:
+            return
+        if b == h:
+            out.append(conds)
+            return
+        if b == pb or b in seen or b not in body:
+            return
+        s_ = sw.get(b)
+        if s_ is not None:
+            c = s_['cond']
+            driver = c[0] == 'discr' and strip(c[1])[0] == 'call' and strip(c[1])[3].endswith('Iterator::next')
+            tr = c[0] == 'discr' and strip(c[1])[0] == 'call' and strip(c[1])[3] == TRY_BRANCH
+            for lab, tgt in s_['edges']:
+                go(tgt, conds if (driver or tr) else conds + [(c, lab)], seen | {b})
+        else:
+            for y in fn.succ(b):
+                go(y, conds, seen | {b})
+    for y in fn.succ(h):
+        if y in body:
+            go(y, [], {h})
+    return out
 
 
 def seq_chain(fn, e):
